@@ -121,8 +121,12 @@ class C04(Prop):
                 F.flatten(nl)
             elif tr == "clone":
                 nl = nl.clone()
-        except Exception as e:  # noqa (C07/C08/C09's business)
-            res.label("transform-raised")
+        except Exception as e:  # noqa
+            # whether the transform is right is decided by C07/C08/C09; but on the pinned tree it never
+            # refuses a netlist the reader produced, and a refusal takes that netlist out of this
+            # property's domain (nothing left to write): reported, so that the domain cannot shrink
+            # unnoticed
+            res.violate("C04:transform-raises:%s:%s" % (tr, type(e).__name__), repr(e)[:300])
             return res
         before = fold(gen_verilog.view(nl))
         keep = None
